@@ -4,7 +4,7 @@
    of_s = Some): that the real constructors invert the real SerializationString is checked on the
    implementation by the harness (strict comparison per kind), not here. *)
 From Coq Require Import ZArith NArith Bool List.
-From PcoreV Require Import Model.Base Model.Ser Model.SerAttrs Model.SerReent.
+From PcoreV Require Import Model.Base Model.Ser Model.SerAttrs Model.SerReent Model.SerStruct.
 Import ListNotations.
 
 Definition ts : str -> str -> str := fun _ p => p.
@@ -170,15 +170,48 @@ Definition attrs_check (c : acase) : bool :=
   | AOther => false
   end.
 
-(* what the harness writes: the run and, when the value is of the attribute route and came back, its attributes *)
-Definition xcase : Type := (case * option acase)%type.
-(* constructors with explicit argument types (the case terms are elaborated against them) *)
-Definition X (c : case) (a : option acase) : xcase := (c, a).
-Definition mkacase (req : nat) (l : list (attr str)) (ds : list (decl str)) (ob : aobs) : acase := (req, l, ds, ob).
+(* ---- object instances (Model/SerStruct.v) ----
+   One case per run whose value holds an instance of an Object type (built by the type's constructor, or the wrapper
+   of a Go struct): for the first instance met, RequiredCount, ALL attributes (name, attribute.Get(instance) - for a
+   Go struct the field -, attribute.Default of it), the declarations, and ALL attribute values of the instance at
+   the same place of the DESERIALIZED value, read the same way.  Checked: the hypotheses of C10_struct_roundtrip
+   and that InitFromHash of the model (fill, trim again, set every field), applied to the entries the model's
+   init hash lets through, yields what the implementation rebuilt = the attribute values of the original.
+   (That the implementation emits exactly the entries init_attrs keeps is part of ser_check: the harness writes
+   instances as VObjS.)  veq := pvalue_eqb. *)
+Inductive sobs :=
+| SObs (full : list (@pvalue str))   (* the attribute values (fields) of the deserialized instance *)
+| SOther.                            (* there is no instance at that place of the deserialized value *)
 
-Definition ser_mismatches (cs : list xcase) : list N := failing (fun c => ser_check (fst c)) cs.
+Definition scase : Type := (nat * list (attr str) * list (decl str) * sobs)%type.
+
+Definition struct_check (c : scase) : bool :=
+  let '(req, l, ds, ob) := c in
+  forallb2 isdef_soundb l ds &&
+  nodupb (map a_name l) &&
+  match ob with
+  | SObs full =>
+      match init_from_hash pvalue_eqb req ds (pobj_attrs (erase (VObjS 0 VUndef l []))) with
+      | Ok r => list_eqb pvalue_eqb r full && list_eqb pvalue_eqb (map (fun a => erase (a_val a)) l) full
+      | _ => false
+      end
+  | SOther => false
+  end.
+
+(* what the harness writes: the run and, when the value is of the attribute route and came back, its attributes;
+   or, when it holds an object instance, the attributes of that *)
+Definition xcase : Type := (case * option acase * option scase)%type.
+(* constructors with explicit argument types (the case terms are elaborated against them) *)
+Definition X (c : case) (a : option acase) : xcase := (c, a, None).
+Definition XS (c : case) (s : scase) : xcase := (c, None, Some s).
+Definition mkacase (req : nat) (l : list (attr str)) (ds : list (decl str)) (ob : aobs) : acase := (req, l, ds, ob).
+Definition mkscase (req : nat) (l : list (attr str)) (ds : list (decl str)) (ob : sobs) : scase := (req, l, ds, ob).
+
+Definition ser_mismatches (cs : list xcase) : list N := failing (fun c => ser_check (fst (fst c))) cs.
 Definition attrs_mismatches (cs : list xcase) : list N :=
-  failing (fun c => match snd c with Some a => attrs_check a | None => true end) cs.
+  failing (fun c => match snd (fst c) with Some a => attrs_check a | None => true end) cs.
+Definition struct_mismatches (cs : list xcase) : list N :=
+  failing (fun c : xcase => match snd c with Some a => struct_check a | None => true end) cs.
 
 (* ---- one Serializer object, conversions that overlap (Model/SerReent.v) ----
    One case per scenario the harness ran on ONE serializer: the options the object was made with, the conversions
